@@ -11,7 +11,7 @@ ALPHABET = list("\\|.?*+()[]{}$^-,:") + ["a", "0", "A", "x", "p", "s", "2"]
 
 
 def patterns_for(tier, rng):
-    pats = R.corpus(PROP) + list(R.PROBLEM) + list(R.EVERY_CONSTRUCT) + list(R.EDGE_BLANKS) + list(R.ALL_ESCAPES)
+    pats = R.corpus(PROP) + list(R.PROBLEM) + list(R.EVERY_CONSTRUCT) + list(R.EDGE_BLANKS) + list(R.EXTREME_GROUPS) + list(R.ALL_ESCAPES)
     maxlen = 3 if tier == "quick" else 4
     alpha = ALPHABET if tier != "quick" else ALPHABET[:17] + ["a", "0", "A"]
     pats += list(R.short_strings(alpha, maxlen if tier == "quick" else 3))
